@@ -52,7 +52,7 @@ open C14
   → `dom=<0|1> <ok bin argv | err e> | <meaning of the model argv>`
 * `parse argv` → meaning of an argv under `sshParse`
 * `std host port user pw timeoutNs strict key kh khLoads keyLoads verdict accKey accPw accKbd`
-  → `<ok addr user policy auth | err e> <outcome>`
+  → `<ok addr user policy auth | err e> <outcome> <credentials offered, in order>`
 * `default` → the strict flag of `newSSHArgs` -/
 def handleC14 : List String → String
   | ["default"] => b2s newSSHArgs.strictKey
@@ -84,9 +84,10 @@ def handleC14 : List String → String
         | .password _ => s2b accPw
         | .keyboardInteractive _ => s2b accKbd
       let out := showOutcome (standardOpen a s (s2b khLoads) (s2b keyLoads) v acc)
+      let att := showAuth (standardAttempts a s (s2b khLoads) (s2b keyLoads) v acc)
       match standardCfg a s (s2b khLoads) (s2b keyLoads) with
-      | .error e => s!"err {showErr e} {out}"
-      | .ok c => s!"ok {toHex c.addr} {toHex c.user} {showPolicy c.policy} {showAuth c.auth} {out}"
+      | .error e => s!"err {showErr e} {out} {att}"
+      | .ok c => s!"ok {toHex c.addr} {toHex c.user} {showPolicy c.policy} {showAuth c.auth} {out} {att}"
     | _, _, _, _, _, _, _, _ => "bad-op"
   | _ => "bad-op"
 
